@@ -347,3 +347,69 @@ M("m29d", "C05", "R5.3", PI, "        n_changed = jnp.any(new_policy != self.pol
 M("m29e", "C05", "R5.2", PI, "        for eval_iter in range(self.config.max_eval_iter):", "        for eval_iter in range(self.config.max_eval_iter + 1):", "evaluation budget off by one")
 B("b25", ["C05"], PI, "        n_changed = jnp.any(new_policy != self.policy, axis=1).sum()", "        n_changed = jnp.sum(jnp.any(new_policy != self.policy, axis=1))", "sum spelled as a function")
 B("b26", ["C05"], PI, "        n_changed = jnp.any(new_policy != self.policy, axis=1).sum()", "        n_changed = (new_policy != self.policy).sum()", "total number of changed components")
+
+# =============================================================================== C02
+M("m15b", "C02", ["R2.1", "R2.4"], PVI, "            self.problem.action_space,\n            self.problem.random_event_space,\n            self.gamma,\n            self.values,\n        )\n        # Store values in history",
+  "            self.problem.random_event_space,\n            self.problem.action_space,\n            self.gamma,\n            self.values,\n        )\n        # Store values in history",
+  "PVI: action and event spaces swapped in the (untested) sweep call", survives="(yes)")
+M("m16", "C02", "R2.1", VI, "        return (single_step_rewards + gamma * next_state_values).dot(probs)", "        return (single_step_rewards + next_state_values).dot(probs)",
+  "VI Q-term without gamma", survives="no", nth=None)
+M("m16b", "C02", "R2.1", VI, "        return (single_step_rewards + gamma * next_state_values).dot(probs)", "        return (single_step_rewards + gamma + next_state_values).dot(probs)",
+  "gamma added instead of multiplied", survives="no")
+M("m17", "C02", "R2.3", VI, "                self.problem.random_event_space,\n                self.gamma,\n                self.values,\n            ),\n            self.batched_states,\n        )\n        policy_idxs",
+  "                self.problem.random_event_space,\n                self.conv_threshold,\n                self.values,\n            ),\n            self.batched_states,\n        )\n        policy_idxs",
+  "extraction passes the threshold in the gamma slot", survives="no")
+M("m17b", "C02", "R2.1", VI, "        return values[self.problem.state_to_index(next_state)]", "        return values[next_state[0]]",
+  "successor value looked up by the first state component instead of state_to_index (right for Forest only)")
+M("m17c", "C02", "R2.1", VI,
+  "        return jnp.max(\n            jax.vmap(\n                self._calculate_updated_state_action_value,\n                in_axes=(None, 0, None, None, None),\n            )(state, actions, random_events, gamma, values)\n        )",
+  "        return jnp.min(\n            jax.vmap(\n                self._calculate_updated_state_action_value,\n                in_axes=(None, 0, None, None, None),\n            )(state, actions, random_events, gamma, values)\n        )",
+  "min over actions", survives="no")
+M("m17d", "C02", "R2.3", VI, "        return jnp.take(self.problem.action_space, policy_idxs, axis=0)", "        return jnp.take(self.problem.random_event_space, policy_idxs, axis=0)",
+  "policy rows taken from the event space", survives="no")
+M("m17e", "C02", ["R2.1", "R2.4"], VI,
+  "        )(\n            state,\n            action,\n            random_events,\n        )\n        next_state_values",
+  "        )(\n            state,\n            action,\n            random_events[::-1],\n        )\n        next_state_values",
+  "transitions evaluated on the reversed event list while probabilities use the natural one")
+M("m17f", "C02", "R2.3", PI, "        self._extract_policy_idx_scan_state_batches_pmap = jax.pmap(\n            self._extract_policy_idx_scan_state_batches,\n            in_axes=((None, None, None, None), 0),\n        )\n\n    def _initialize_solver_state_elements",
+  "        self._extract_policy_idx_scan_state_batches_pmap = jax.pmap(\n            self._calculate_updated_value_scan_state_batches,\n            in_axes=((None, None, None, None), 0),\n        )\n\n    def _initialize_solver_state_elements",
+  "PI re-binds the extraction pmap to the value kernel", survives="no")
+B("b01", ["C02", "C03", "C06", "C01"], VI, "        values, gamma, action_space, random_event_space = carry\n        new_values = jax.vmap(\n            self._calculate_updated_value,\n            in_axes=(0, None, None, None, None),\n        )(state_batch, values, gamma, action_space, random_event_space)",
+  "        actions, random_events, gamma, values = carry\n        new_values = jax.vmap(\n            self._calculate_updated_value,\n            in_axes=(0, None, None, None, None),\n        )(state_batch, actions, random_events, gamma, values)",
+  "the mislabelled carry names corrected")
+B("b02", ["C02", "C01"], VI, "        return (single_step_rewards + gamma * next_state_values).dot(probs)", "        return (next_state_values * gamma + single_step_rewards).dot(probs)", "commuted operands")
+B("b03", ["C02", "C01"], VI, "        return (single_step_rewards + gamma * next_state_values).dot(probs)", "        return jnp.sum((single_step_rewards + gamma * next_state_values) * probs)", ".dot -> jnp.sum(x * p)")
+B("b03b", ["C02"], VI, "        return (single_step_rewards + gamma * next_state_values).dot(probs)",
+  "        return single_step_rewards.dot(probs) + gamma * next_state_values.dot(probs)", "product distributed over the sum")
+
+# =============================================================================== C03 / C06
+_mask_scatter = "            updated_values = current_values.at[batch_indices].set(\n                jnp.where(\n                    batch_padding_mask, current_values[batch_indices], new_batch_values\n                )\n            )"
+M("m19", "C03", "R3.4", SAVI, _mask_scatter, "            updated_values = current_values.at[batch_indices].set(new_batch_values)",
+  "SAVI scatter without the padding mask (padded zero rows overwrite the zero state)")
+M("m20", "C03", "R3.4", SAVI, "            padding_mask = (jnp.arange(n_total) >= self.problem.n_states).reshape(\n                batched_states.shape[0],  # n_devices",
+  "            padding_mask = (jnp.arange(n_total) > self.problem.n_states).reshape(\n                batched_states.shape[0],  # n_devices", "mask built with > (fixed-order branch)")
+M("m20b", "C03", "R3.4", SAVI, "        padding_mask = (jnp.arange(n_total) >= self.problem.n_states).reshape(\n            padded_batched_states.shape[0],  # n_devices",
+  "        padding_mask = (jnp.arange(n_total) >= self.problem.n_states - 1).reshape(\n            padded_batched_states.shape[0],  # n_devices", "mask off by one (shuffle branch)")
+M("m20c", "C03", "R3.4", SAVI, "                    batch_padding_mask, current_values[batch_indices], new_batch_values\n", "                    batch_padding_mask, new_batch_values, current_values[batch_indices]\n",
+  "where branches swapped: real states keep old values, padded rows are written")
+M("m21", "C03", "R3.2", PI, "        new_values = self._unbatch_results(padded_batched_values)\n        new_values = new_values.reshape(-1)\n", "        new_values = padded_batched_values.reshape(-1)[: self.problem.n_states]\n",
+  "PI evaluation returns the padded array reshaped (no un-batching)", survives="no")
+M("m21b", "C03", "R3.1", VI, "        return carry, new_values\n\n    def _calculate_updated_value_scan_state_batches",
+  "        return (values, gamma, action_space, new_values.sum() + random_event_space), new_values\n\n    def _calculate_updated_value_scan_state_batches",
+  "synchronous sweep threads a batch-dependent carry", survives="no")
+M("m30", "C06", "R6.1", SAVI, "            return (actions, random_events, gamma, updated_values), new_batch_values", "            return carry, new_batch_values",
+  "scan_fn returns the carry unchanged (plain Jacobi; same policy on every test)")
+M("m31", "C06", "R6.1", SAVI, "                (actions, random_events, gamma, current_values), batch\n", "                (actions, random_events, gamma, values), batch\n",
+  "batch computed from the closed-over previous-sweep values")
+M("m32", "C06", "R6.3", SAVI, "            self.key, subkey = random.split(self.key)", "            _, subkey = random.split(self.key)", "key never advanced: the same permutation every sweep")
+M("m32b", "C06", "R6.3", SAVI, "                self._jitted_shuffle_states(subkey)", "                self._jitted_shuffle_states(self.key)", "permutation drawn from the carried key")
+M("m33", "C06", "R6.3", SAVI, "        return values[jnp.argsort(shuffled_state_idxs)]", "        return values[shuffled_state_idxs]", "forward permutation applied instead of its inverse")
+M("m34", "C06", "R6.4", SAVI, "        self.key = random.PRNGKey(self.config.random_seed)", "        self.key = random.PRNGKey(0)", "seed ignored")
+M("m18", "C06", "R6.5", SAVI, "        return (single_step_rewards + gamma * next_state_values).dot(probs)\n\n    def _calculate_updated_value(",
+  "        return (single_step_rewards + next_state_values).dot(probs)\n\n    def _calculate_updated_value(", "SAVI's overridden Q-term drops gamma", survives="no")
+M("m34b", "C06", "R6.2", SAVI, "            return (actions, random_events, gamma, updated_values), new_batch_values", "            return (actions, random_events, gamma, updated_values), updated_values[batch_indices]",
+  "scan outputs read back from the scattered carry (padded rows alias state zero)")
+M("m34c", "C06", "R6.6", SAVI, "        super()._initialize_solver_state_elements()\n        self.batch_order = None\n", "        super()._initialize_solver_state_elements()\n        self.batch_order = jnp.arange(self.batched_states.shape[1])[::-1]\n",
+  "constructor installs a reversed batch order")
+M("m34d", "C06", "R6.1", SAVI, "            updated_values = current_values.at[batch_indices].set(", "            updated_values = current_values.at[batch_indices + 1].set(", "values scattered to the wrong rows")
+B("b27", ["C06", "C03"], SAVI, "        return values[jnp.argsort(shuffled_state_idxs)]", "        return values[jnp.argsort(shuffled_state_idxs)] + 0", "no-op arithmetic")
